@@ -60,6 +60,24 @@ def nest2_mixed():
     }
 
 
+def storage():
+    """event classes by size / alignment / copy-move traits, stored in message queue, deferred queue and the
+    backmp11 pool (inline and heap), in the root and in a sub-machine whose pool is reset on entry"""
+    return {
+        "name": "storage",
+        "events": ["E0", {"name": "S1", "size_class": 1}, {"name": "S2", "size_class": 2}, {"name": "S3", "size_class": 3},
+                   {"name": "S4", "size_class": 4}, {"name": "S5", "size_class": 5}, {"name": "S6", "size_class": 6}, "E7"],
+        "machines": [
+            {"name": "Top", "regions": [["A", "B", "S"]], "kinds": {"S": "sub:Sub"},
+             "rows": ["A + E0 / a0 -> B", "B + E0 / a1 -> S", "S + E0 [g0] / a2 -> A", "B + S1 / a3", "B + S2 / a4", "B + S3 / a5",
+                      "B + S4 / a6", "B + S5 / a7", "B + S6 / a8", "A + E7 / a9", "B + E7 / a10 -> A", "S + E7 / a17 -> B"],
+             "state": {"A": {"deferred": ["S1", "S2", "S3", "S4", "S5", "S6"]}}},
+            {"name": "Sub", "regions": [["P", "Q"]],
+             "rows": ["P + S2 / a11 -> Q", "Q + S3 / a12 -> P", "P + S4 / a13", "Q + S5 / a14", "P + S6 / a15", "Q + S1 / a16"]},
+        ],
+    }
+
+
 ALL = {f.__name__: f for f in [conflict_flat, nest2_mixed]}
 
 
@@ -373,7 +391,25 @@ def serial_nested():
     }
 
 
+def storage():
+    """event classes by size / alignment / copy-move traits, stored in message queue, deferred queue and the
+    backmp11 pool (inline and heap), in the root and in a sub-machine whose pool is reset on entry"""
+    return {
+        "name": "storage",
+        "events": ["E0", {"name": "S1", "size_class": 1}, {"name": "S2", "size_class": 2}, {"name": "S3", "size_class": 3},
+                   {"name": "S4", "size_class": 4}, {"name": "S5", "size_class": 5}, {"name": "S6", "size_class": 6}, "E7"],
+        "machines": [
+            {"name": "Top", "regions": [["A", "B", "S"]], "kinds": {"S": "sub:Sub"},
+             "rows": ["A + E0 / a0 -> B", "B + E0 / a1 -> S", "S + E0 [g0] / a2 -> A", "B + S1 / a3", "B + S2 / a4", "B + S3 / a5",
+                      "B + S4 / a6", "B + S5 / a7", "B + S6 / a8", "A + E7 / a9", "B + E7 / a10 -> A", "S + E7 / a17 -> B"],
+             "state": {"A": {"deferred": ["S1", "S2", "S3", "S4", "S5", "S6"]}}},
+            {"name": "Sub", "regions": [["P", "Q"]],
+             "rows": ["P + S2 / a11 -> Q", "Q + S3 / a12 -> P", "P + S4 / a13", "Q + S5 / a14", "P + S6 / a15", "Q + S1 / a16"]},
+        ],
+    }
+
+
 ALL = {f.__name__: f for f in [
     conflict_flat, nest2_mixed, conflict_ortho, order_rows, nest3, nest_inactive, noevent, fork_entry, exit_points,
     history_none, history_always, history_shallow, completion_chain, defer_basic, defer_action, queue_flat, queue_nested,
-    blocking, flags, events_hier, serial_nested]}
+    blocking, flags, events_hier, serial_nested, storage]}
